@@ -351,6 +351,8 @@ def run(ctx: Ctx) -> None:
         else:
             cases.append(gen_swap(rng, ctx.n(6, 8)))
     for i, case in enumerate(cases):
+        if ctx.out_of_time():
+            break
         mal = case.pop("_malformed", False)
         probs = run_case(ctx, case)
         ctx.count("gate:" + case["gate"])
